@@ -28,6 +28,7 @@ fn dispatch(kind: &str, args: &[&str]) -> String {
         "errtab" => k_errtab::run(args),
         "dumptab" => k_errtab::dump(args),
         "dev" => k_dev::run(args),
+        "deva" => k_dev::run_alloc(args),
         "devtree" => k_dev::dump_tree(),
         "mm" => k_mm::run(args),
         "lex" => k_lex::run(args),
